@@ -109,7 +109,7 @@ func model(c Case) string {
 	var sb strings.Builder
 	sb.WriteString(k.open)
 	atLineStart := true // the text so far ends with a line break
-	absorb := false      // that line break came from a decoration
+	absorb := false     // that line break came from a decoration
 	space := func(s int) {
 		n := s
 		if n == 0 {
